@@ -17,6 +17,7 @@ import networkx as nx
 t0 = time.time()
 wit = []
 cases = 0
+skipped = []
 TOL = 2e-6            # exports round gains/targets to 6 decimals or coarser
 
 
@@ -77,6 +78,42 @@ def gsnr(net, eqpt):
     return res
 
 
+def element_state(net):
+    """the settings of the element objects themselves (an export can omit a setting in both rounds and still look stable)"""
+    out = {}
+    for n in net.nodes():
+        d = {'class': type(n).__name__}
+        if isinstance(n, Fiber):
+            p = n.params
+            d.update(length=p.length, att_in=p.att_in, con_in=p.con_in, con_out=p.con_out, pmd_coef=p.pmd_coef,
+                     loss_coef=np.round(np.atleast_1d(p.loss_coef), 12).tolist(), lumped=[(l['position'], l['loss']) for l in p.lumped_losses],
+                     loss=n.loss)
+        if isinstance(n, Edfa):
+            d.update(variety=n.params.type_variety, gain=n.effective_gain, delta_p=n.delta_p, out_voa=n.out_voa, in_voa=n.in_voa, tilt=n.tilt_target)
+        if isinstance(n, Roadm):
+            d.update(pch=n.target_pch_out_dbm, psd=n.target_psd_out_mWperGHz, psw=n.target_out_mWperSlotWidth,
+                     per_degree=[sorted(n.per_degree_pch_out_dbm.items()), sorted(n.per_degree_pch_psd.items()), sorted(n.per_degree_pch_psw.items())])
+        out[n.uid] = d
+    return out
+
+
+def state_diff(s1, s2, tol):
+    out = []
+    for u in sorted(set(s1) | set(s2)):
+        a, b = s1.get(u), s2.get(u)
+        if a is None or b is None:
+            out.append(f'{u}: only in one design')
+            continue
+        for k in a:
+            x, y = a[k], b.get(k)
+            if isinstance(x, (int, float)) and isinstance(y, (int, float)) and not isinstance(x, bool):
+                if abs(x - y) > tol * max(abs(x), abs(y)) + 1e-30 and not (abs(x) < 1e-9 and abs(y) < 1e-9 and k not in ('pmd_coef',)):
+                    out.append(f'{u}.{k}: {x} -> {y}')
+            elif x != y:
+                out.append(f'{u}.{k}: {x!r} -> {y!r}')
+    return out
+
+
 def run(topo, eq, key, rounds=2):
     global cases
     cases += 1
@@ -84,6 +121,7 @@ def run(topo, eq, key, rounds=2):
         net1, e1 = design(deepcopy(topo), deepcopy(eq))
         netb, _ = design(deepcopy(topo), deepcopy(eq))
     except Exception as e:      # configuration rejected: nothing to repeat
+        skipped.append(f'{key}: {type(e).__name__}: {e}'[:160])
         return
     j1 = network_to_json(net1)
     jb = network_to_json(netb)
@@ -96,6 +134,8 @@ def run(topo, eq, key, rounds=2):
         net2, e2 = design(json.loads(json.dumps(j)), deepcopy(eq))
         j2 = network_to_json(net2)
         d = diff(j, j2, TOL)
+        if not d:
+            d = ['element objects: ' + x for x in state_diff(element_state(net1), element_state(net2), 2e-6)]
         if d:
             eol = eq['Span']['default'].EOL
             if eol and any('.params.con_out' in x and abs(float(x.rsplit(' -> ', 1)[1]) - float(x.rsplit(': ', 1)[1].split(' -> ')[0]) - eol) < 1e-9
@@ -147,6 +187,7 @@ for variant in ('per_degree', 'per_degree_psw', 'lumped', 'user_gain', 'user_del
         for e in topo['elements']:
             if e['uid'] == 'fiber (A -> B)-1':
                 e['params']['lumped_losses'] = [{'position': 20, 'loss': 1.5}, {'position': 45.5, 'loss': 0.5}]
+                e['params']['pmd_coef'] = 3.1e-15
     if variant in ('user_gain', 'user_delta_p'):
         k = 0
         for e in topo['elements']:
@@ -160,6 +201,7 @@ for variant in ('per_degree', 'per_degree_psw', 'lumped', 'user_gain', 'user_del
         for e in topo['elements']:
             if e['uid'] == 'fiber (A -> B)-1':
                 e['type'] = 'RamanFiber'
+                e['params']['pmd_coef'] = 2.5e-15       # the element's own PMD coefficient, not the library's
                 e['operational'] = {'temperature': 283, 'raman_pumps': [
                     {'power': 0.2, 'frequency': 205e12, 'propagation_direction': 'counterprop'},
                     {'power': 0.2, 'frequency': 201e12, 'propagation_direction': 'counterprop'}]}
@@ -197,4 +239,4 @@ finish('design is repeatable: same input twice, export/reload/redesign fixed poi
        'gnpy.tools.worker_utils.designed_network, gnpy.tools.json_io.network_to_json / network_from_json, gnpy.core.network.estimate_raman_gain',
        f'topologies {names} x spans {span_sets} x junction none/edfa/fused x power/gain mode x out_voa_auto; ring3 variants: per-degree '
        'targets, user gain, user delta_p, RamanFiber under 4 SimParams settings, delta power range; 2-3 export/reload rounds, tolerance 2e-6',
-       cases, wit, t0=t0)
+       cases, wit, t0=t0, detail={'configurations the design refuses (not judged)': skipped})
